@@ -49,7 +49,7 @@ def oracle(case):
     nerrs = codec.canon_errs(v3._errors, 2)
     if (r3 is None) != (len(v3._errors) > 0):
         return 'normalized returned %s with %d normalization errors' % ('None' if r3 is None else 'a document', len(v3._errors))
-    if any(not e.is_normalization_error for e in real.flatten(v3._errors)):
+    if any(e.code not in (0x61, 0x62, 0x63, 0x64) and not (e.code & 0x80) for e in real.flatten(v3._errors)):
         return 'normalized recorded a non-normalization error'
     if not mentions(case['schema'], 'readonly') and not mentions(case.get('cfg', {}), 'readonly'):
         v4 = real.make_validator(case)
@@ -74,6 +74,9 @@ def oracle_same_instance(case):
     r0 = fresh.validate(copy.deepcopy(d), update=upd)
     e0 = codec.canon_errs(fresh._errors, 2)
     d0 = codec.canon_val(fresh.document)
+    fn = real.make_validator(case)
+    n0 = fn.normalized(copy.deepcopy(d))
+    n0 = (None if n0 is None else codec.canon_val(n0), codec.canon_errs(fn._errors, 2))
     v = real.make_validator(case)
     seq = [('validate', lambda: v.validate(copy.deepcopy(d), update=upd)),
            ('normalized', lambda: v.normalized(copy.deepcopy(d))),
@@ -94,6 +97,10 @@ def oracle_same_instance(case):
         else:
             if (r is None) != (len(v._errors) > 0):
                 return 'normalized on a reused instance returned %s with %d errors' % ('None' if r is None else 'a document', len(v._errors))
+            if (None if r is None else codec.canon_val(r), codec.canon_errs(v._errors, 2)) != n0:
+                return ('normalized on an instance that has processed the document before returns %s with %d errors, on a fresh '
+                        'instance %s with %d errors' % ('None' if r is None else 'a document', len(v._errors),
+                                                        'None' if n0[0] is None else 'a document', len(n0[1])))
     return None
 
 
